@@ -49,6 +49,7 @@ def run_one(args) -> dict:
     env = dict(os.environ)
     env["PYTHONHASHSEED"] = str(cfg.get("hashseed", 0))
     env["PYNGUIN_DANGER_AWARE"] = "1"
+    env["PYTHONPATH"] = f"{ROOT}:{os.environ.get('VERIF_REPO', '/repo')}/src"
     p = subprocess.Popen([sys.executable, "-m", "harness.adapters.e2e_runner", str(out / "cfg.json"), str(out)],
                          cwd=str(ROOT), env=env, stdout=subprocess.DEVNULL, stderr=subprocess.PIPE,
                          start_new_session=True)
@@ -64,7 +65,10 @@ def run_one(args) -> dict:
         _, err = p.communicate()
     done.write_text(json.dumps({"hung": hung, "rc": p.returncode,
                                 "stderr_tail": (err or b"").decode(errors="replace")[-2000:]}))
-    return load(out, cfg, cached=False)
+    res = load(out, cfg, cached=False)
+    if not res["events"]:
+        done.unlink(missing_ok=True)  # the runner itself failed: never cache that
+    return res
 
 
 def load(out: Path, cfg: dict, cached: bool) -> dict:
